@@ -168,7 +168,7 @@ ASSUME = ['rules that raise a non-Exception BaseException propagate (stated in t
 
 def main(argv):
     return run_check('C04', [RulesFitsStream()], argv, trusted_base=TRUSTED, assumptions=ASSUME,
-                     translated=('checker', 'policy', 'pin_rules'))
+                     translated=('checker', 'policy', 'rules', 'rules_on_generated', 'pin_rules'))
 
 
 if __name__ == '__main__':
